@@ -40,7 +40,8 @@ def make_payload(p, challenges):
     if p.get("deleg"):
         # a genuine NIP-26 delegation by another key to the signer: it says who may post for whom, not who is answering
         tags.append(C.delegation_tag(p["deleg"], p["signer"]))
-    ev = C.mk_event(p["signer"], kind=p["kind"], created_at=NOW - p["age"], tags=tags, content="")
+    # (age "nan": a created_at that is not a number at all - NaN, which the relay's JSON parser reads - is as far from now as can be)
+    ev = C.mk_event(p["signer"], kind=p["kind"], created_at=(float("nan") if p["age"] == "nan" else NOW - p["age"]), tags=tags, content="")
     if p["sig"] == "bad":
         ev["sig"] = ev["sig"][:-2] + ("00" if ev["sig"][-2:] != "00" else "01")
     elif p["sig"] == "lifted":
@@ -54,9 +55,12 @@ def make_payload(p, challenges):
     return ev
 
 
+FAR = 1000000000      # the age the contract sees for a timestamp that is not a number
+
+
 def abstract(p):
     # (to the contract a lifted signature is a bad one: it does not sign this answer; an answer without id field is as good as its signature)
-    return {"signer": p["signer"], "sig": {"lifted": "bad", "noid": "ok"}.get(p["sig"], p["sig"]), "kind": p["kind"], "age": p["age"],
+    return {"signer": p["signer"], "sig": {"lifted": "bad", "noid": "ok"}.get(p["sig"], p["sig"]), "kind": p["kind"], "age": FAR if p["age"] == "nan" else p["age"],
             "relays": [relay_abs(r) for r in p["relays_c"]], "chals": list(p["chals"])}
 
 
@@ -69,7 +73,7 @@ def payload_grammar(rnd, tier):
         "signer": ["A", "B"],
         "sig": ["ok", "bad", "lifted"],
         "kind": [22242, 22243, 1],
-        "age": [-601, -600, -599, -1, 0, 1, 599, 600, 601, 100000],
+        "age": [-601, -600, -599, -1, 0, 1, 599, 600, 601, 100000, "nan"],
         "relays_c": [["exact"], ["exact2"], ["substring"], ["prefix"], ["empty"], ["superstring"], ["foreign"], [], ["exact", "foreign"],
                      ["foreign", "exact"], ["exact", "exact2"]],
         "chals": [["c1"], ["c2"], ["none"], [], ["c1", "none"], ["none", "c1"], ["c2", "c1"], ["c1", "c1"]],
